@@ -155,8 +155,8 @@ TAdv ==
     /\ IsEvent({"drop", "dup", "swap", "mod", "trunc", "inject", "injectrec", "forge", "replay",
                 "reflect", "hsedit", "dropall"})
     /\ LET t == Line
-           alters == t.ev \in AltersStream \/ (t.ev = "hsedit" /\ t.op # "split")
-       IN IF alters /\ t.peer \in DOMAIN sess
+           alters == t.ev \in AltersStream \/ (t.ev = "hsedit" /\ t.op \in {"del", "swap"})
+       IN IF alters /\ t.peer \in DOMAIN sess /\ ~sess[t.peer].cfg.dtls     \* DTLS tolerates loss/duplication/reordering
           THEN sess' = [sess EXCEPT ![t.peer].tampered = @ \/ ~sess[t.peer].done]
           ELSE UNCHANGED sess
 
